@@ -233,4 +233,4 @@ def run(report, tier):
     report.space(len(states), transitions, bound,
                  "BFS over method words (shapes %s) x {static, dyn} selection x dependency-bound assignments %s, two competing targets; "
                  "every state non-trivial" % (ORDER, list(BOUNDS)))
-    evaluate(states, report, tier)
+    common.evaluate_chunked(evaluate, states, report, tier)
